@@ -69,6 +69,13 @@ CHECKS = {
                      "waiter may be covered by the value (stranded waiter). Barriers (Mutex/Spin x wait/wait_yield): n=1..4 threads x 1..3 generations, ghost "
                      "counters: nobody leaves generation g before all entered, action exactly once, by the last arriver, before any release; reuse.",
                 note="SC interleavings only; no spurious wake-ups; preemption bound 1 (quick) / 2-3 (thorough); TSan is not an oracle here (no race claim in C11)"),
+    "C05": dict(engine="venum", technique=E3, design="4/C05",
+                text="Every tuple of sorted sequences over 3 keys (k = 0..6 quick / 0..9 thorough, lengths 0..4/5 within total caps, plus dense and dominant-sequence "
+                     "families), every length 0..total, every entry point {multiway_merge, stable_, _sentinels, stable_.._sentinels, multiway_merge_base} x "
+                     "{LOSER_TREE, COMBINED, SENTINEL, BUBBLE} x {8-byte element (copy tree), 40-byte element (pointer tree)}: output equals the first `length` of the "
+                     "reference (stable) merge, return value, inputs advanced by exactly the contributed counts (tags), nothing written beyond target+length "
+                     "(exact-size heap blocks under ASan, canaries), inputs unmodified. 1.9e8 merges quick / 3.8e9 thorough.",
+                note="key alphabet of 3, stated k / length caps; comparator looks at the key only, tags make stability observable"),
 }
 
 NA = {}
